@@ -1,4 +1,5 @@
 import Model.OAuth1Flow
+import Props.C12Nonce
 /-
   C12 — OAuth 1.0 provider over every history: token credentials only for a temporary credential
   issued to the same client, approved, with the right verifier and signature, not exchanged before
